@@ -7,9 +7,9 @@ W=/tmp/mut-$id
 git -C /repo worktree remove --force $W 2>/dev/null
 git -C /repo worktree add -q $W HEAD || exit 3
 git -C $W apply /verif/seeded/$id/patch.diff || { echo "patch does not apply"; exit 4; }
-export VERIF_REPO=$W VERIF_BUILD=/verif/.build-mut-$id
+export VERIF_REPO=$W VERIF_BUILD=/verif/.build-mut-$id VERIF_REPLAY_TARGET=/verif/.build-replay-target
 cd /verif
-./check $prop "$@" 2>&1 | grep -v "^WARNING conda"
+./check $prop --no-evidence "$@" 2>&1 | grep -v "^WARNING conda"
 rc=${PIPESTATUS[0]}
 echo "SEED $id property=$prop exit=$rc"
 git -C /repo worktree remove --force $W
